@@ -151,13 +151,17 @@ def run(ctx: Ctx):
         k = rng.randint(0, min(4, len(nodes)))
         mods = rng.sample(nodes, k)
         al = [(m, rng.choice(ALIAS_TEXT)) for m in mods]
+        if al and rng.random() < 0.15:
+            # an alias whose text is the module's own name (keeps a sub package under its full name below an aliased ancestor)
+            j = rng.randrange(len(al))
+            al[j] = (al[j][0], al[j][0])
         r = rng.random()
         if r < 0.15 and nodes:
             # an alias for a module that does not exist (misspelt / truncated / sibling-like)
             base = rng.choice(nodes)
             cand = rng.choice([base + "x", base[:-1] or "zz", base + ".zz", "zz"])
             if cand not in nodes:
-                al.insert(rng.randint(0, len(al)), (cand, "Q"))
+                al.insert(rng.randint(0, len(al)), (cand, rng.choice(["Q", cand])))
         kw = {}
         if rng.random() < 0.5:
             kw["spacing"] = rng.random()
@@ -165,6 +169,9 @@ def run(ctx: Ctx):
             kw["node_size"] = [rng.randint(1, 9)]
         if rng.random() < 0.3:
             kw["ax"] = object()
+        if rng.random() < 0.15 and nodes:
+            # a drawing option like any other: it restricts what the backend draws, not which modules get a label
+            kw["nodelist"] = rng.sample(nodes, rng.randint(1, len(nodes)))
         if rng.random() < 0.2:
             # labels switched off: the aliases are still validated, the option is handed on like any other
             kw["with_labels"] = rng.random() < 0.3
